@@ -152,7 +152,7 @@ fn judge(obs: Obs, exp: &[Px], w: usize, mismatch_sig: &str, what: &str, case: &
 // ---------------------------------------------------------------------------------------
 // families
 
-const FAMILIES: [&str; 10] = ["pos", "val16", "val8", "rgb5a3", "ci8val", "pal", "etc-alpha", "etc-oor", "etc-grid", "rand"];
+const FAMILIES: [&str; 11] = ["pos", "val16", "val8", "rgb5a3", "ci8val", "pal", "etc-alpha", "etc-oor", "etc-grid", "rand", "poisoned"];
 
 /// Families whose expected output is not pinned to exact bytes in every channel (tolerance or
 /// open outcomes): their outputs are additionally compared between the two builds.
@@ -193,6 +193,7 @@ fn chunk_count(tier: Tier, fam: &str) -> u64 {
         "etc-grid" => 2 * 2 * 8 * 8 * 3,
         "etc-oor" => 2 * 8 * 8 * 3,
         "etc-alpha" => 1,
+        "poisoned" => 4,
         "rand" => 9 * pos_sizes(tier).len() as u64 * rand_seeds(tier),
         _ => 0,
     }
@@ -760,6 +761,20 @@ fn run_chunk(tier: Tier, fam: &str, chunk: u64, t: &mut Tally) -> Vec<Option<u64
         "etc-oor" => run_etc_oor(chunk, t, &mut h),
         "etc-alpha" => run_etc_alpha(t, &mut h),
         "rand" => run_rand(tier, chunk, t, &mut h),
+        "poisoned" => {
+            // state carried between calls: a fixed series of failing calls right before a cheap family
+            props::poison::failing_calls();
+            let before = t.violations.len();
+            match chunk {
+                0 => run_val8(t, &mut h),
+                1 => run_ci8val(t, &mut h),
+                2 => run_etc_alpha(t, &mut h),
+                _ => run_pal(tier, 9 * pal_max(tier) as u64 + 5, t, &mut h),
+            }
+            for v in t.violations.iter_mut().skip(before) {
+                v.sig = format!("after-failed-calls:{}", v.sig);
+            }
+        }
         _ => {}
     }
     h
